@@ -276,7 +276,8 @@ func hangSignature(dump string) string {
 	counts := map[string]int{}
 	for _, g := range strings.Split(dump, "\n\n") {
 		f := murexFrame(g)
-		if f != "?" {
+		// the event listeners started by murex's init (file system, timer, signals) are always parked
+		if f != "?" && !strings.HasPrefix(f, "builtins/events/") {
 			counts[f]++
 		}
 	}
